@@ -36,6 +36,15 @@ type T1 struct {
 
 func (t T1) Get() T0 { return t.In }
 
+// Node is the recursive member of the family: every Name spells the node's own Go path (C11).
+type Node struct {
+	Name string
+	A    []Node
+	B    []Node
+	P    *Node
+	M    map[string]Node
+}
+
 // VD is a value description: the same tree is turned into a Go value for the
 // implementation and into a Coq [vdesc] term for the model.
 type VD struct {
@@ -80,7 +89,7 @@ func vT1(name string) VD {
 func vPtr(v VD) VD             { return VD{K: "ptr", Els: []VD{v}} }
 func vGo(id int, cfg ...VD) VD { return VD{K: "go", Id: id, Els: cfg} }
 
-var coqTy = map[string]string{"iface": "TyIface", "int": "TyInt", "string": "TyString", "bool": "TyBool", "float": "TyFloat", "T0": "(TyStruct tn_T0)", "T1": "(TyStruct tn_T1)"}
+var coqTy = map[string]string{"iface": "TyIface", "int": "TyInt", "string": "TyString", "bool": "TyBool", "float": "TyFloat", "T0": "(TyStruct tn_T0)", "T1": "(TyStruct tn_T1)", "Node": "(TyStruct tn_Node)"}
 
 func (v VD) Coq() string {
 	switch v.K {
@@ -256,6 +265,12 @@ func (v VD) Go(lg *runLog) interface{} {
 				s[i] = e.Go(lg).(T0)
 			}
 			return s
+		case "Node":
+			s := make([]Node, len(v.Els))
+			for i, e := range v.Els {
+				s[i] = e.Go(lg).(Node)
+			}
+			return s
 		}
 	case "map":
 		switch v.Kty + "/" + v.Ety {
@@ -295,10 +310,35 @@ func (v VD) Go(lg *runLog) interface{} {
 				m[v.Ks[i].S] = v.Els[i].Go(lg).(T0)
 			}
 			return m
+		case "string/Node":
+			m := map[string]Node{}
+			for i := range v.Els {
+				m[v.Ks[i].S] = v.Els[i].Go(lg).(Node)
+			}
+			return m
 		}
 	case "struct":
 		if v.Tn == "T0" {
 			return T0{Name: v.Els[0].S}
+		}
+		if v.Tn == "Node" {
+			nd := Node{}
+			for i, n := range v.Fn {
+				x := v.Els[i].Go(lg)
+				switch n {
+				case "Name":
+					nd.Name = x.(string)
+				case "A":
+					nd.A = x.([]Node)
+				case "B":
+					nd.B = x.([]Node)
+				case "P":
+					nd.P = x.(*Node)
+				case "M":
+					nd.M = x.(map[string]Node)
+				}
+			}
+			return nd
 		}
 		t := T1{}
 		for i, n := range v.Fn {
@@ -332,9 +372,14 @@ func (v VD) Go(lg *runLog) interface{} {
 			return &t
 		case T1:
 			return &t
+		case Node:
+			return &t
 		}
 		return nil
 	case "nilptr":
+		if v.Tn == "Node" {
+			return (*Node)(nil)
+		}
 		return (*T0)(nil)
 	case "go":
 		return goHelper(v, lg)
